@@ -608,6 +608,7 @@ def _check_case(case, st):
             "argument-order": ("argument-order", "selection-order"),
             "directive-location": ("definition-order",),
             "merged-parents": ("no-closure",),
+            "two-usages": ("argument-order", "selection-order", "input-field-order", "definition-order"),
         }[case["family"]]
         for j, (name, tag, label, c) in enumerate(X.FAMILIES[case["family"]]()):
             if case["from"] <= j < case["to"]:
